@@ -134,6 +134,24 @@ func (s *Server) Shutdown() {
 	simrt.BlockOn("avahi.Shutdown", []*uint64{&s.d.h}, nil)
 	s.shut++
 	s.started = false
+	// go-avahi frees everything this connection created and closes the D-Bus connection: calls made afterwards fail
+	// until Setup is called again; closing the connection makes it invoke the event callback with Disconnected from a
+	// goroutine of its own (Server.shutdown: "go c.eventCB(Disconnected)"), also when the application shuts down
+	if s.setup && s.cb != nil {
+		cb := s.cb
+		simrt.Go("avahi.eventCB", func() { cb(Disconnected) })
+	}
+	s.setup = false
+	for _, g := range s.d.Groups {
+		if g.owner == s {
+			g.Freed = true
+		}
+	}
+	for _, b := range s.d.Browsers {
+		if b.owner == s {
+			b.Freed = true
+		}
+	}
 	s.d.log("Shutdown")
 }
 
@@ -288,6 +306,14 @@ func (d *Daemon) Disconnect() {
 			simrt.Go("avahi.eventCB", func() { cb(Disconnected) })
 		}
 	}
+}
+
+// DBusOnly makes the system bus reachable while the Avahi daemon is still away (the usual situation while the daemon
+// restarts): Setup succeeds, the API calls fail.
+func (d *Daemon) DBusOnly() {
+	simrt.TouchCell(&d.h)
+	d.DBusUp, d.AvahiUp = true, false
+	d.log("dbus-up")
 }
 
 // Up makes D-Bus and the daemon reachable again.
